@@ -90,7 +90,11 @@ pub fn specs(thorough: bool) -> Vec<BuildSpec> {
         }
     }
     // (2c) paths that are related to each other: one a suffix / prefix of the other, same base name in different directories
-    let related: [&[&str]; 12] = [
+    let related: [&[&str]; 15] = [
+        // the relative './' spelling with a hidden first component
+        &["./.config/demo/settings.toml", "/config/demo/settings.toml"],
+        &["./.hidden", "./visible", "./..d/x"],
+        &["./.a/.b/.c", "/a/b/c", "./a/.b/c"],
         // hidden (dot-prefixed) names next to their plain twins, at the top level and below
         &["/.config/settings", "/config/settings"],
         &["/.hidden", "/hidden", "/d/.hidden", "/d/hidden"],
